@@ -10,6 +10,8 @@ use crate::{
 pub(crate) mod merger;
 
 pub fn parse_cst(cst: &Cst<'_>, source: &str) -> Result<Value, Error> {
+    #[cfg(feature = "verif_hooks")]
+    let _frame = crate::verif_hooks::enter(1);
     let Node::Rule(Rule::File, _) = cst.get(NodeRef::ROOT) else {
         let span = cst.span(NodeRef::ROOT);
         let value = source[span.clone()].to_string();
@@ -73,6 +75,8 @@ fn has_errors(cst: &Cst<'_>, source: &str, root: NodeRef) -> Result<(), Error> {
 
 #[allow(clippy::too_many_lines)]
 fn parse_rule(cst: &Cst<'_>, node_ref: NodeRef, source: &str) -> Result<Value, Error> {
+    #[cfg(feature = "verif_hooks")]
+    let _frame = crate::verif_hooks::enter(1);
     #[cfg(feature = "verif_hooks")]
     crate::verif_hooks::bump(1);
     match cst.get(node_ref) {
@@ -191,6 +195,8 @@ fn parse_rule(cst: &Cst<'_>, node_ref: NodeRef, source: &str) -> Result<Value, E
 }
 
 fn parse_token(cst: &Cst<'_>, node_ref: NodeRef) -> Result<Value, Error> {
+    #[cfg(feature = "verif_hooks")]
+    let _frame = crate::verif_hooks::enter(1);
     match cst.get(node_ref) {
         Node::Rule(Rule::Boolean, _) | Node::Token(Token::False | Token::True, _) => {
             Ok(Value::Bool { optional: false })
@@ -209,6 +215,8 @@ fn parse_member(
     source: &str,
     content: &mut BTreeMap<String, Value>,
 ) -> Result<(), Error> {
+    #[cfg(feature = "verif_hooks")]
+    let _frame = crate::verif_hooks::enter(1);
     let Some(key) = cst
         .children(sub_node)
         .find(|node_ref| matches!(cst.get(*node_ref), Node::Token(Token::String, _)))
